@@ -77,6 +77,7 @@ class Profile:
     tco_safe: bool = False                          # tail calls only in functions with no other call and no early return (F-C02-a family)
     global_writes: bool = True                      # functions assign module-level variables (`global g`)
     loop_control: bool = True                       # break / continue at all
+    leaf_functions: bool = False                    # functions call nothing (the proved core covers calls of leaf procedures)
     range_var_bounds: bool = True                   # `b = e % 4; for i in range(b)`: a range bound held in a variable whose last use is the loop header
     loopctl_heavy: bool = False                     # many break / continue / dead loops (C05 loop-label paths)
     dead_loops: bool = True                         # `while False:` blocks (disabled code)
@@ -357,6 +358,8 @@ class Gen:
         return ("un", "not", self.bool_expr(sc, depth + 1))
 
     def call_expr(self, sc, depth, need_value):
+        if self.p.leaf_functions and self.cur_func_index is not None:
+            return None
         lo = 0 if self.cur_func_index is None else self.cur_func_index + 1
         cands = [f for f in self.funcs[lo:] if (f["returns"] if need_value else True)]
         if not cands:
@@ -933,6 +936,22 @@ def pexpr(e, prec=0, fprefix=""):
     raise ValueError(t)
 
 
+def prhs(e, ind, fprefix=""):
+    """right-hand side of an assignment / device write; about one in three arithmetic expressions is laid out over several lines
+    inside parentheses (one top-level operand per line) — the line a sub-expression stands on must not matter"""
+    flat = pexpr(e, 0, fprefix)
+    if e[0] == "bin" and e[1] in ("add", "sub", "mul") and (zlib_crc(flat) % 3 == 0):
+        pr = PREC[e[1]]
+        pad = "    " * ind + "    "
+        return f"({pexpr(e[2], pr, fprefix)}\n{pad}{ALU2PY[e[1]]} {pexpr(e[3], pr + 1, fprefix)})"
+    return flat
+
+
+def zlib_crc(text):
+    import zlib
+    return zlib.crc32(text.encode("utf-8", "replace"))
+
+
 def pblock(ss, ind, out, fprefix=""):
     if not ss:
         out.append("    " * ind + "pass")
@@ -951,11 +970,11 @@ def pstmt(s, ind, out, fprefix=""):
         if hint and "aug" in hint:
             out.append(f"{I}{s[1]} {hint['aug']}= {pexpr(s[2][3], 0, fprefix)}")
         else:
-            out.append(f"{I}{s[1]} = {pexpr(s[2], 0, fprefix)}")
+            out.append(f"{I}{s[1]} = {prhs(s[2], ind, fprefix)}")
     elif t == "write":
         h = s[3]
         f = h["form"]
-        v = pexpr(s[2][-1], 0, fprefix)
+        v = prhs(s[2][-1], ind, fprefix)
         if f == "pin":
             out.append(f"{I}{h['pin']}.{h['lt']} = {v}")
         elif f == "obj":
